@@ -151,9 +151,41 @@ def run_lines(binary, lines, timeout=1800, env=None):
     if out and out[-1] == "":
         out.pop()
     if p.returncode != 0 or len(out) != len(lines):
+        if os.path.basename(binary) == "fn" and len(lines) == 1:
+            CRASH_LOG[lines[0]] = p.stderr[-1500:]
+            return ["2"]
+        if os.path.basename(binary) == "fn" and len(lines) > 1:
+            # the implementation crashed the driver process (a panic outside the calling goroutine cannot be
+            # recovered): isolate the case(s) by running every line in a process of its own
+            return isolate_crashes(binary, lines, p.stderr, env)
         raise BuildError("driver " + os.path.basename(binary),
                          "rc=%d lines in=%d out=%d\n%s" % (p.returncode, len(lines), len(out), p.stderr[-2000:]))
     return out
+
+
+CRASH_LOG = {}
+
+
+def isolate_crashes(binary, lines, batch_stderr, env=None):
+    import concurrent.futures as cf
+
+    def one(line):
+        try:
+            q = subprocess.run([binary], input=line + "\n", stdout=subprocess.PIPE, stderr=subprocess.PIPE, text=True,
+                               timeout=120, env=env)
+        except subprocess.TimeoutExpired:
+            CRASH_LOG[line] = "timeout"
+            return "2"
+        o = q.stdout.split("\n")
+        if q.returncode != 0 or not o or o[0] == "":
+            CRASH_LOG[line] = q.stderr[-1500:]
+            return "2"
+        return o[0]
+    with cf.ThreadPoolExecutor(16) as ex:
+        outs = list(ex.map(one, lines))
+    if not any(l in CRASH_LOG for l in lines):
+        raise BuildError("driver fn", "the batch crashed but no single case does:\n" + batch_stderr[-2000:])
+    return outs
 
 
 def run_parallel(binary, lines, shards=8, timeout=1800):
